@@ -215,7 +215,7 @@ impl RoutePattern {
                             return None;
                         } else {
                             param_map
-                                .insert(segment_decoded.decode_utf8_lossy().to_string(), collected);
+                                .insert(segment.segment_str(pattern.as_str()).to_string(), collected);
                         }
                     } else if !part_decoded.eq(segment_decoded) {
                         return None;
